@@ -501,11 +501,43 @@ func (g *Gen) OfType(t tx.TxType, height uint64) *GenTx {
 				break
 			}
 		}
+		// or take it from the waiting list: coins parked there are withdrawn (or moved) through the same two transactions, by a
+		// shorter path of the handler (no stake is looked up)
+		fromWL := false
+		if g.rint(4) == 0 {
+			start := g.rint(len(g.W.Addrs))
+			for i := range g.W.Addrs {
+				a := g.W.Addrs[(start+i)%len(g.W.Addrs)]
+				m := cs.WaitList().GetByAddress(a)
+				if m == nil || len(m.List) == 0 {
+					continue
+				}
+				it := m.List[g.rint(len(m.List))]
+				if it.Value == nil || it.Value.Sign() <= 0 {
+					continue
+				}
+				pk, c, s, val = cs.Candidates().PubKey(it.CandidateId), it.Coin, a, it.Value
+				gas = 0
+				fromWL = true
+				break
+			}
+		}
 		if t == tx.TypeUnbond {
-			return g.Build(t, tx.UnbondDataV3{PubKey: pk, Coin: c, Value: g.amount(val)}, s, gas)
+			u := g.Build(t, tx.UnbondDataV3{PubKey: pk, Coin: c, Value: g.amount(val)}, s, gas)
+			if fromWL {
+				u.Note = "wl-source"
+			}
+			return u
 		}
 		to := g.pickPubKey(g.rint(6) != 0)
-		return g.Build(t, tx.MoveStakeData{FromPubKey: pk, ToPubKey: to, Coin: c, Value: g.amount(val)}, s, gas)
+		if fromWL && g.rint(3) == 0 {
+			to = g.pickPubKey(false) // possibly not a candidate (any more)
+		}
+		mv := g.Build(t, tx.MoveStakeData{FromPubKey: pk, ToPubKey: to, Coin: c, Value: g.amount(val)}, s, gas)
+		if fromWL {
+			mv.Note = "wl-source"
+		}
+		return mv
 	case tx.TypeSetCandidateOnline, tx.TypeSetCandidateOffline, tx.TypeEditCandidate, tx.TypeEditCandidateCommission, tx.TypeEditCandidatePublicKey:
 		pk := g.pickPubKey(true)
 		if c := cs.Candidates().GetCandidate(pk); c != nil && g.rint(5) != 0 {
